@@ -52,7 +52,7 @@ def c_history(e1: int, e2: int, e3: int, e4: int, a1: bool, a2: bool, a3: bool, 
             devs.append('state-retained-after-connection-closed')
     if o.by_ok is False:
         devs.append('bystander-request-disturbed')
-    if o.loop.exc:
+    if o.loop.errors():
         devs.append('loop-exception-handler-called')
     d = describe(o)
     d['cause'] = cause
